@@ -275,23 +275,41 @@ Proof.
   intro H. rewrite Forall_forall in *. intros x Hx. apply filter_In in Hx. apply H. tauto.
 Qed.
 
+(* the top-level member names other than signatures / unsigned are distinct *)
+Definition top_no_repeats (v : json) : Prop :=
+  match v with JObj m => no_repeats m | _ => True end.
+
+Lemma verified_part_no_repeats v : top_no_repeats v -> verified_part v = strip v.
+Proof. destruct v; try reflexivity. simpl. unfold no_repeats. intro H. rewrite H. reflexivity. Qed.
+
 Section Reserialise.
   Context (verify : bytes -> bytes -> bytes -> bool) (sig_size_ok pk_size_ok : bytes -> bool).
   Notation verify_value := (verify_value verify sig_size_ok pk_size_ok).
 
-  Theorem verify_value_normalise name kid p v :
-    verify_value name kid p (normalise v) = verify_value name kid p v.
-  Proof.
-    rewrite !(verify_value_spec verify sig_size_ok pk_size_ok), sig_at_normalise, strip_normalise,
-      canon_print_normalise.
-    reflexivity.
-  Qed.
-
-  (* equivalent values (member order, number spelling) get the same verdict *)
+  (* equivalent values (member order, integer spelling) without repeated member names get the
+     same verdict.  (With a repeated name VerifyJSON looks at the last occurrence only: F69.) *)
   Theorem verify_respects_jequiv name kid p v v' :
+    top_no_repeats v -> top_no_repeats v' ->
     jequiv v v' -> verify_value name kid p v = verify_value name kid p v'.
   Proof.
-    intro E. rewrite <- (verify_value_normalise name kid p v), <- (verify_value_normalise name kid p v').
-    unfold jequiv in E. rewrite E. reflexivity.
+    intros N N' E. rewrite !(verify_value_spec verify sig_size_ok pk_size_ok).
+    rewrite (verified_part_no_repeats v N), (verified_part_no_repeats v' N').
+    rewrite <- (sig_at_normalise name kid v), <- (sig_at_normalise name kid v').
+    rewrite <- (canon_print_normalise (strip v)), <- (canon_print_normalise (strip v')).
+    rewrite <- !strip_normalise. unfold jequiv in E. rewrite E. reflexivity.
   Qed.
 End Reserialise.
+
+Section SignedNoRepeats.
+  Context {key : Type} (pub : key -> bytes) (sign : key -> bytes -> bytes)
+          (verify : bytes -> bytes -> bytes -> bool) (sig_size_ok pk_size_ok : bytes -> bool)
+          (IS : ideal_sig pub sign verify sig_size_ok pk_size_ok).
+
+  Lemma signed_top_no_repeats name kid k m o :
+    no_repeats m -> sign_value key sign name kid k (JObj m) = Some o -> top_no_repeats o.
+  Proof.
+    intros N S.
+    destruct (sign_preserves pub sign verify sig_size_ok pk_size_ok IS _ _ _ _ _ S) as [m' [sm [-> [E _]]]].
+    simpl. unfold no_repeats in *. rewrite E. exact N.
+  Qed.
+End SignedNoRepeats.
